@@ -410,6 +410,8 @@ def prove(facts, goal, max_cases=None, _lazy=False, _depth=0, _fsplit=0, _univer
     ax = [slice_axiom(s) for s in _slice_len_atoms(rel + [goal])]
     # axioms may connect further facts
     rel2 = relevant(facts, _conj([goal] + ax) if ax else goal)
+    if goal.k == "const" and not goal.a[0]:
+        rel2 = list(facts)      # a feasibility question: every fact is relevant
     ax = [slice_axiom(s) for s in _slice_len_atoms(rel2 + [goal])]
     st, m = entails(rel2 + ax, goal)
     if st != "proved" and _fsplit < 3:
